@@ -92,18 +92,8 @@ def gen_cases(ctx):
             else:
                 o["only_level"] = rng.choice([2, 3])
         cases.append(cw.Case(w, o))
-    # children that write raw fd-2 noise of every kind around a bad outcome
-    for i in range(12 if ctx.quick() else 300):
-        w = worlds.gen_world(rng, n_layers=rng.choice([2, 3]), tests_per_layer=(1, 3),
-                             kinds=["pass", "pass", "fail", "error"], p_fault=0.0, p_write=0.0)
-        for t in w["tests"]:
-            if rng.random() < 0.6:
-                rng.choice([t["setUp"], t["body"], t["tearDown"]])["fd2"] = rng.choice(
-                    ["caf\xe9 latin-1 noise\n", "\xff\xfe\x00 binary\n", "3 0 0 trailing words\n", "warning\n",
-                     "2026 09 29 12:00:01 worker started\n", "\x80\n", "store: entries hits misses 3 0 0\n",
-                     "cache 1 0 0\n"])
-        o = {"verbose": rng.choice([0, 1, 2]), "processes": rng.choice([2, 3])}
-        cases.append(cw.Case(w, o))
+    cases += noisy_cases(ctx, 12 if ctx.quick() else 300)
+    cases += stdin_cases(ctx, 3 if ctx.quick() else 40)
     # outcomes that depend on state surviving --repeat iterations: every bad part raises only the first time
     for i in range(8 if ctx.quick() else 200):
         w = worlds.gen_world(rng, n_layers=rng.choice([1, 2, 3]), tests_per_layer=(1, 3),
@@ -120,6 +110,48 @@ def gen_cases(ctx):
                 rng.choice(cand)["tearDownFaults"] = [[999999, 2]]
         cases.append(cw.Case(w, o))
     cases += death_cases(ctx, 16 if ctx.quick() else 300)
+    return cases
+
+
+def noisy_cases(ctx, n):
+    """children that write raw fd-2 noise of every kind around a bad outcome, and failing tests whose captured stderr
+    looks like a report header"""
+    rng = ctx.rng
+    cases = []
+    for i in range(n):
+        w = worlds.gen_world(rng, n_layers=rng.choice([2, 3]), tests_per_layer=(1, 3),
+                             kinds=["pass", "pass", "fail", "error"], p_fault=0.0, p_write=0.0)
+        for t in w["tests"]:
+            if rng.random() < 0.6:
+                rng.choice([t["setUp"], t["body"], t["tearDown"]])["fd2"] = rng.choice(
+                    ["caf\xe9 latin-1 noise\n", "\xff\xfe\x00 binary\n", "3 0 0 trailing words\n", "warning\n",
+                     "2026 09 29 12:00:01 worker started\n", "\x80\n", "store: entries hits misses 3 0 0\n",
+                     "cache 1 0 0\n"])
+        o = {"verbose": rng.choice([0, 1, 2]), "processes": rng.choice([2, 3])}
+        if rng.random() < 0.35:
+            # a failing test whose captured stderr looks like a report header (shown in its report under --buffer)
+            bad_tests = [t for t in w["tests"] if t["kind"] in ("fail", "error")]
+            if bad_tests:
+                rng.choice(bad_tests)["body"]["stderr_text"] = rng.choice(["7 0 0\n", "1 0 0\n", "12 0 0 \n"])
+                o["buffer"] = True
+        cases.append(cw.Case(w, o))
+    return cases
+
+
+def stdin_cases(ctx, n):
+    """code under test that bound sys.stdin when it was imported and reads from it in a test: in a layer subprocess
+    the real stdin is a pipe from the parent that nobody writes to; the run must terminate all the same"""
+    rng = ctx.rng
+    cases = []
+    for i in range(n):
+        w = worlds.gen_world(rng, n_layers=rng.choice([2, 3]), tests_per_layer=(1, 3), kinds=["pass", "pass", "fail"],
+                             p_fault=0.0, p_write=0.0)
+        victims = [t for t in w["tests"] if w["layers"][t["layer"]]["kind"] != "unit" and not t.get("doctest")]
+        if not victims:
+            continue
+        rng.choice(victims)["body"]["readstdin"] = True
+        o = {"verbose": rng.choice([0, 1]), "processes": rng.choice([2, 3]), "_timeout": 45}
+        cases.append(cw.Case(w, o, "reads-stdin"))
     return cases
 
 
@@ -144,6 +176,14 @@ def death_cases(ctx, n):
             rng.choice(cand)[rng.choice(["dieInSetUp", "dieInTearDown"])] = rng.choice(
                 ["exit0", "exit3", "pyexit0", "pyexit3", "pymemory", "pyinterrupt"])
         o = {"verbose": rng.choice([0, 1]), "processes": rng.choice([2, 3])}
+        if rng.random() < 0.3:
+            # a parent whose stdout cannot encode what the dying child wrote to stderr (the error banner quotes it)
+            o["_env"] = {"PYTHONIOENCODING": "ascii"}
+            o["verbose"] = rng.choice([1, 2])
+            for t in w["tests"]:
+                t.pop("label", None)
+            if victims:
+                rng.choice(victims)["setUp"]["fd2"] = rng.choice(["caf\xe9 na\xefve\n", "\xff\xfe\n"])
         cases.append(cw.Case(w, o, "child-dies"))
     return cases
 
@@ -162,7 +202,10 @@ def run_cases(ctx, cases):
             bad = mon(c)
             if bad:
                 ctx.violation(bad[0] + " (opts %r)" % c.opts, c.replay_obj(), signature=bad[1] + ":death")
-            elif "Could not communicate with subprocess" not in c.obs.stdout and any(e["ev"] == "die" for e in c.obs.events):
+            elif "Could not communicate with subprocess" not in c.obs.stdout and any(e["ev"] == "die" for e in c.obs.events) \
+                    and not c.opts.get("_env") and "subprocess for " not in c.obs.stdout:
+                # (with a parent stdout that cannot encode what the child wrote, the banner itself may be cut short;
+                # the verdict - checked above - and the error list are what counts)
                 ctx.violation("a child died but no communication error was reported", c.replay_obj(), signature="C02:silent-death")
         else:
             normal.append(c)
